@@ -1,6 +1,7 @@
 """C12 — `connection NAME` routes only the next record; sessions are isolated and closed."""
 import corr
 import runfam
+import vlib
 
 PID = "C12"
 RULE = ("scripts of 1..14 records with random sequences of `connection` lines over {default, Default, DEFAULT, a, A, b, another} "
@@ -81,8 +82,81 @@ def generate(rng, tier):
     return [gen_one(rng) for _ in range(n)]
 
 
+def gen_reuse_case(rng):
+    """a runner that is shut down and then used again (once or several times, also before its first use): every shutdown closes every
+    session opened since the previous one, a name used again afterwards gets a fresh session"""
+    names = [None, "a", "b", "A", "default"]
+    n = rng.randint(2, 8)
+    text, plan = "", []
+    for i in range(n):
+        nm = rng.choice(names)
+        if nm is not None:
+            text += "connection %s\n" % nm
+        text += "statement ok\ns%d\n\n" % i
+        plan.append("default" if nm in (None, "default") else nm)
+    k = rng.randint(1, 2)
+    shut = sorted(rng.choice(range(0, n + 1)) for _ in range(k))
+    shut = [x for x in shut if x < n] or [rng.randrange(n)]
+    if rng.random() < 0.3:
+        shut = [0] + shut               # shut down before anything was opened
+    c = runfam.impl_case(text, shutdown=True, default_answer=["complete", 0], meta={"plan": plan, "shut": shut})
+    c["shutdown_before"] = shut
+    return c
+
+
+def check_reuse(case, obs):
+    if "events" not in obs:
+        return "contradicts L1: the run did not complete: %r" % (obs,)
+    plan, shut = case["meta"]["plan"], case["meta"]["shut"]
+    evs = obs["events"]
+    # reference: one session per distinct name for the life of the runner (shutdown_all closes the sessions, it does not forget them)
+    cur, want_sql = {}, []
+    for i, nm in enumerate(plan):
+        if nm not in cur:
+            cur[nm] = len(cur)
+        want_sql.append((cur[nm], "s%d" % i))
+    got_sql = [(e[1], e[2]) for e in evs if e[0] == "sql"]
+    if got_sql != want_sql:
+        return "contradicts L1 (C12_once_and_reused): (session, sql) %r, reference %r (shutdowns before records %r)" % (got_sql, want_sql, shut)
+    # every session that was opened is closed by a shutdown that comes AFTER it was opened (the last shutdown is the final one)
+    for k, e in enumerate(evs):
+        if e[0] == "connect" and not any(f[0] == "shutdown" and f[1] == e[1] for f in evs[k + 1:]):
+            return "contradicts L1 (C12_shutdown): session %r was opened but no later shutdown of the runner closed it (shutdowns before records %r, and at the end)" % (e[1], shut)
+    # every shutdown call closes every session opened so far
+    opened = []
+    k = 0
+    while k < len(evs):
+        e = evs[k]
+        if e[0] == "connect":
+            opened.append(e[1])
+        elif e[0] == "shutdown-call":
+            j = k + 1
+            closed = []
+            while j < len(evs) and evs[j][0] == "shutdown":
+                closed.append(evs[j][1]); j += 1
+            if sorted(closed) != sorted(opened):
+                return "contradicts L1 (C12_shutdown): a shutdown of the runner closed sessions %r, opened so far are %r" % (sorted(closed), sorted(opened))
+            k = j - 1
+        k += 1
+    return None
+
+
 def execute(cases, tier):
-    return corr.execute_run_family(__import__("props.C12", fromlist=["x"]), cases, tier)
+    res = corr.execute_run_family(__import__("props.C12", fromlist=["x"]), cases, tier)
+    import random
+    rng = random.Random(len(cases) * 31 + 7)
+    rc = [gen_reuse_case(rng) for _ in range(400 if tier == "quick" else 6000)]
+    outs = vlib.run_impl("run", [corr.strip(c) for c in rc])
+    nbad = 0
+    for c, o in zip(rc, outs):
+        why = check_reuse(c, o)
+        if why:
+            nbad += 1
+            res["disagreements"].append({"case": c, "impl": {"events": o.get("events")}, "model": "name -> session reference per shutdown epoch", "spec": why, "broken": "corr_C12_reuse"})
+    res["stats"]["evaluations"] += len(rc)
+    res["stats"]["categories"]["runner_reused_after_shutdown"] = len(rc)
+    res["stats"]["disagreements"] = len(res["disagreements"])
+    return res
 
 
 def project(case, obs):
